@@ -3,6 +3,7 @@ package mon
 import (
 	"fmt"
 	"math/big"
+	"time"
 
 	authtypes "github.com/cosmos/cosmos-sdk/x/auth/types"
 
@@ -254,6 +255,40 @@ func (m *C03) AfterBeginBlock(e *eng.Engine, b *eng.BlockRec) {
 		}
 		if e1.Cmp(e0) < 0 {
 			moved = true
+		}
+	}
+	// "only moves an account's OWN credits from escrow back to tradable": the escrow an account loses in
+	// this block is exactly the quantity of ITS OWN orders that had expired by the block time (pre-state
+	// order table) — nobody else's expiry may release (or lock up) its credits.
+	if b.Panic == nil {
+		due := map[obs.BalKey]*big.Rat{}
+		for _, o := range pre.OrderList {
+			if o.Expiration == nil {
+				continue
+			}
+			if t := time.Unix(o.Expiration.Seconds, int64(o.Expiration.Nanos)).UTC(); t.After(b.Time) {
+				continue
+			}
+			q := ref.MustDec(o.Quantity)
+			if q == nil {
+				continue
+			}
+			k := obs.BalKey{Addr: obs.Addr(o.Seller), BatchKey: o.BatchKey}
+			if due[k] == nil {
+				due[k] = new(big.Rat)
+			}
+			due[k].Add(due[k], q)
+		}
+		for k := range keys {
+			_, _, e0 := pre.BalOf(k.Addr, k.BatchKey)
+			_, _, e1 := post.BalOf(k.Addr, k.BatchKey)
+			want := due[k]
+			if want == nil {
+				want = new(big.Rat)
+			}
+			if got := new(big.Rat).Sub(e0, e1); got.Cmp(want) != 0 {
+				e.Violate("C03", "block-released-foreign-escrow", fmt.Sprintf("%s: escrow of %s batch %d fell by %s but its own orders expired by the block time sum to %s", where, k.Addr, k.BatchKey, rs(got), rs(want)))
+			}
 		}
 	}
 	if moved {
